@@ -61,6 +61,12 @@ LEVEL_TEXT += (
     "9.6): "
     "the tolerance of the default side tags is not derived from "
     "params() (longest cell edge).")
+LEVEL_TEXT += (
+    " Added in the fourth hunting round (DESIGN.md 9.6): "
+    "the three selectors convert Boolean masks; the predicate for a "
+    "vertex named by coordinates is invariant under translation and "
+    "unit (helper methods of the mesh are evaluated interprocedurally, "
+    "one level).")
 LEVEL_NOTE = ("Trusted: numpy unique/concatenate/intersect1d/union1d/"
               "setdiff1d semantics; connectivity tables are coherent (C11).")
 EXPLANATION = "Provenance-tagged symbolic runs of the DOF query code."
